@@ -32,7 +32,8 @@ EXTENDS FlagsSem, Json
 CONSTANTS FlagNames,   \* e.g. {"a", "b", "c"}
           MaxTok,      \* maximal number of tokens in a value
           LitChars,    \* code points used for ordinary characters
-          Export       \* TRUE: print each initial state as a CASE line
+          Export,      \* TRUE: print each initial state as a CASE line
+          AllUserSets  \* TRUE: four sets of user-overridden flags, else two
 
 Toks == {Lit(c) : c \in LitChars} \cup {Ref(f) : f \in FlagNames}
 Values == UNION {[1..k -> Toks] : k \in 0..MaxTok}
@@ -48,7 +49,8 @@ Yes(v) == [has |-> TRUE, v |-> v]
 (* Overridden flags get a decoy default that would blow up if it were      *)
 (* used: ${f}${f}.                                                         *)
 Decoy(f) == <<Ref(f), Ref(f)>>
-UserSets == {{}, {"a"}, FlagNames \ {"a"}, FlagNames}
+UserSets == IF AllUserSets THEN {{}, {"a"}, FlagNames \ {"a"}, FlagNames}
+            ELSE {{}, FlagNames}
 Texts == {<<Ref("a")>>}
 
 (* A flag whose chosen value is ${f} itself is exported as a flag declared  *)
